@@ -135,6 +135,12 @@ def run(repo, rep, tier):
                   "not registered (prefix or default type) is reported as "
                   "an ExpressionError", construct="factory-lookup-guarded",
                   where=L.where(pc, n_.lineno), detail=src(n_))
+    # an empty expression is the expression engine's to report (deferred in
+    # non-strict mode): the statement patterns admit it (C01 owns them)
+    from . import c01 as _c01
+    L.borrow(repo, rep, "R19.2", "C01", _c01.statement_patterns,
+             ("statement-space", "statement-expression-width",
+              "split-parts-steps"), minimum=3)
     L.state_rule(repo, rep)
 
 
